@@ -113,7 +113,15 @@ impl Gen {
         let server_role = if r.chance(30) { Role::Full } else { Role::ServerOnly };
         let client_role = if r.chance(30) { Role::Full } else { Role::ClientOnly };
         let heal_rounds = 6 + 2 * app.period + 5;
-        let prof = Profile { app, clients, slots, max_size, server_role, client_role, heal_rounds };
+        let mut wrong_proto = 0u8;
+        if app.auth == 0 && matches!(focus, Focus::Auth | Focus::Byzantine) {
+            for i in 0..clients {
+                if r.chance(30) {
+                    wrong_proto |= 1 << i;
+                }
+            }
+        }
+        let prof = Profile { app, clients, slots, max_size, server_role, client_role, heal_rounds, wrong_proto };
 
         let faults = r.chance(80);
         let mut kinds = vec![Kind::A];
